@@ -556,6 +556,17 @@ def tol_diff(va, vb, state_level, rtol_state=1e-4, rtol_force=5e-3, atol=1e-5, s
           o = vb[other].astype(np.float64)
           sq = max(sq, float(np.max(np.abs(np.where(np.isfinite(o), o, 0.0)))))
       tol = max(tol, dt * (atol + rtol_force * max(1e-3, sq)))
+    if k == "qpos" and dt and "qacc" in vb and vb["qacc"].size and "qacc" not in skip and "qvel" in vb and vb["qvel"].size:
+      # ... and the next position is qpos + dt * (next qvel): dt times what is accepted on the velocity
+      sq = 0.0
+      for other in ("qacc", "qacc_smooth"):
+        if other in vb and vb[other].size:
+          o = vb[other].astype(np.float64)
+          sq = max(sq, float(np.max(np.abs(np.where(np.isfinite(o), o, 0.0)))))
+      qv = vb["qvel"].astype(np.float64)
+      sv = float(np.max(np.abs(np.where(np.isfinite(qv), qv, 0.0))))
+      tol_v = max(atol + rtol_state * max(1e-3, sv), dt * (atol + rtol_force * max(1e-3, sq)))
+      tol = max(tol, dt * tol_v)
     err = float(np.max(np.abs(xf - yf)))
     worst = max(worst, err / tol)
     if err > tol:
